@@ -8,6 +8,7 @@ import UbxModel.Proofs.CfgKeysDichotomy
 -/
 namespace C19
 open Ubx Ubx.Render
+variable [KeyTable]
 
 theorem idx_ok (t : List String) (i : Nat) (h : i < t.length) : ∃ s, idx t i = .ok s := by
   simp only [idx, List.getElem?_eq_getElem h]; exact ⟨_, rfl⟩
